@@ -25,7 +25,11 @@ type resetSpec struct {
 	MsgGap     time.Duration // pause between the writes of one stream
 	// EagerReopen: the next cycle starts as soon as the identifier is free on both sides (both
 	// readers saw end-of-stream), without waiting for the responses to the reset requests.
-	EagerReopen   bool
+	EagerReopen bool
+	// C15: low-threshold callback on A's streams; the amount is above the threshold when Close
+	// is called and crosses it while the stream is closing
+	Threshold     uint64
+	CheckCallback bool
 	CheckBuffered bool // C15: per-stream buffered amount must be zero after the reset
 }
 
@@ -124,6 +128,22 @@ func resetCycle(m *Sim, spec *resetSpec, cycle int) bool {
 	for _, sid := range spec.SIDs {
 		startReader(1, sid, streams[sid].b, spec.LateReader)
 		startReader(0, sid, streams[sid].a, false)
+	}
+	cbCount := map[uint16]int{}
+	if spec.CheckCallback {
+		for _, sid := range spec.SIDs {
+			sid := sid
+			sa := streams[sid].a
+			sa.SetBufferedAmountLowThreshold(spec.Threshold)
+			sa.OnBufferedAmountLow(func() {
+				if held := m.S.HeldClasses(); len(held) > 0 {
+					m.Failf("callback.locks", "OnBufferedAmountLow of stream %d invoked with internal locks held: %v", sid, held)
+				}
+				mu.Lock()
+				cbCount[sid]++
+				mu.Unlock()
+			})
+		}
 	}
 	// A writes and closes
 	want := [2]map[uint16][]string{{}, {}}
@@ -238,6 +258,20 @@ func resetCycle(m *Sim, spec *resetSpec, cycle int) bool {
 					m.Failf("reset.data", "cycle %d endpoint %d stream %d: read a message that was not written in this incarnation", cycle, ep, sid)
 					break
 				}
+			}
+		}
+	}
+	if spec.CheckCallback {
+		for _, sid := range spec.SIDs {
+			total := 0
+			for _, sz := range spec.Sizes {
+				total += sz
+			}
+			mu.Lock()
+			n := cbCount[sid]
+			mu.Unlock()
+			if uint64(total) > spec.Threshold && streams[sid].a.BufferedAmount() <= spec.Threshold && n == 0 {
+				m.Failf("callback.missing", "cycle %d stream %d: %d bytes were buffered when Close was called, the amount has fallen to %d (threshold %d) but OnBufferedAmountLow never fired", cycle, sid, total, streams[sid].a.BufferedAmount(), spec.Threshold)
 			}
 		}
 	}
